@@ -697,28 +697,6 @@ func main() {
 		g := &gen{rng: rng.Fork(), pool: pool}
 		c.D.Rule = "a case is non-trivial when Assemble succeeds; counted once per (class, layout, #frames, metadata subset, alpha/lossless mix, parity of payloads)"
 
-		// which variant of the code is this tree? (pinned, or with work/patches/c14-*.diff / c05-*.diff applied)
-		var alphIt, plainIt *muxh.PoolItem
-		for i := range pool {
-			if pool[i].Alpha != nil && alphIt == nil {
-				alphIt = &pool[i]
-			}
-			if pool[i].Alpha == nil && !pool[i].Lossless && plainIt == nil {
-				plainIt = &pool[i]
-			}
-		}
-		fxa, fxv, dfx := 0, 0, 0
-		if _, st, f := runOps([]op{{K: "AF", Data: alphIt.Data, Item: alphIt}}); st == "ok" && len(f) >= 16 && string(f[12:16]) == "VP8X" {
-			fxa = 1
-		}
-		if _, st, _ := runOps([]op{{K: "AF", Data: plainIt.Data, Item: plainIt, HasOpts: true, Dur: 10, OX: -2}}); st == "err" {
-			fxv = 1
-		}
-		if l, _ := muxh.DemuxLine([]byte("RIFF\x02\x00\x00\x00WEBPVP8 ")); l != "panic" {
-			dfx = 1
-		}
-		c.Count(fmt.Sprintf("variant-alpha%d-validate%d-demux%d", fxa, fxv, dfx))
-
 		total := 2500
 		if c.Thorough() {
 			total = 40000
@@ -736,12 +714,12 @@ func main() {
 			default:
 				ops, kind = g.wild(), "wild"
 			}
-			evalCase(c, ops, kind, fxa, fxv, dfx)
+			evalCase(c, ops, kind)
 		}
 	})
 }
 
-func evalCase(c *Ctx, ops []op, kind string, fxa, fxv, dfx int) {
+func evalCase(c *Ctx, ops []op, kind string) {
 	c.D.Evaluations++
 	c.Count("gen-" + kind)
 	sh := &shadow{}
@@ -762,7 +740,7 @@ func evalCase(c *Ctx, ops []op, kind string, fxa, fxv, dfx int) {
 		dline, dm = muxh.DemuxLine(file)
 		muxLine = fmt.Sprintf("%s ok %s | %s", outs, hex.EncodeToString(file), dline)
 	}
-	c.Case(fmt.Sprintf("mux %d %d %d %s", fxa, fxv, dfx, ol), muxLine)
+	c.Case("mux "+ol, muxLine)
 	// -- correspondence line 2: round trip in view form (S = Coq specification)
 	rt := st
 	if st == "ok" {
@@ -780,7 +758,7 @@ func evalCase(c *Ctx, ops []op, kind string, fxa, fxv, dfx int) {
 			}
 		}
 	}
-	c.Case(fmt.Sprintf("rt %s %d %d %d %s", cls, fxa, fxv, dfx, ol), rt)
+	c.Case(fmt.Sprintf("rt %s %s", cls, ol), rt)
 
 	// -- direct evaluation
 	if st == "panic" {
